@@ -9,37 +9,33 @@ from vt.core.oblig import group
 
 S = frames.Spec
 
-CHAINS_SNAP = [("self.chains_idx", "chains_idx"), ("self.decay_group.chains_idx", "chains_idx"), ("dec.chains_idx", "chains_idx"),
-               ("amp.decay_group.chains_idx", "chains_idx"), ("self.amp.decay_group.chains_idx", "chains_idx")]
-CHAINS_RESTORE_CALLS = [("self.set_used_chains", "chains_idx"), ("self.decay_group.set_used_chains", "chains_idx"), ("dec.set_used_chains", "chains_idx"),
-                        ("amp.decay_group.set_used_chains", "chains_idx"), ("self.amp.decay_group.set_used_chains", "chains_idx"),
-                        ("amp.set_used_chains", "chains_idx"), ("self.amp.set_used_chains", "chains_idx"), ("amp_tmp.set_used_chains", "chains_idx")]
-CHAINS_MUT = [("self.set_used_res", ["chains_idx"]), ("self.add_used_chains", ["chains_idx"]), ("amp.set_used_res", ["chains_idx"]),
-              ("amp_tmp.set_used_res", ["chains_idx"]), ("self.amp.set_used_res", ["chains_idx"]), ("self.decay_group.set_used_res", ["chains_idx"])]
-CHAINS_CM = [("self.decay_group.temp_used_res", ["chains_idx"]), ("amp.temp_used_res", ["chains_idx"]), ("self.amp.temp_used_res", ["chains_idx"]),
-             ("self.temp_used_res", ["chains_idx"]), ("amp.decay_group.temp_used_res", ["chains_idx"])]
+# API names, any receiver (`*.`): the local variable that holds the amplitude / decay group is incidental
+CHAINS_SNAP = [("*.chains_idx", "chains_idx")]
+CHAINS_RESTORE_CALLS = [("*.set_used_chains", "chains_idx")]
+CHAINS_MUT = [("*.set_used_res", ["chains_idx"]), ("*.add_used_chains", ["chains_idx"])]
+CHAINS_CM = [("*.temp_used_res", ["chains_idx"])]
 
 
 def chains(func, **kw):
-    return S(func, ["chains_idx"], snapshot_exprs=CHAINS_SNAP, restore_assign=[("self.chains_idx", "chains_idx")], restore_calls=CHAINS_RESTORE_CALLS,
+    return S(func, ["chains_idx"], snapshot_exprs=CHAINS_SNAP, restore_assign=[("*.chains_idx", "chains_idx")], restore_calls=CHAINS_RESTORE_CALLS,
              mutate_calls=CHAINS_MUT, cm_calls=CHAINS_CM, **kw)
 
 
 SPECS = [
     # ---- context managers
-    S("variable:VarsManager.temp_params", ["params"], snapshot_exprs=[("{i: self.get(i, val_in_fit=False) for i in params.keys()}", "params")],
-      restore_calls=[("self.set_all", "params")]),
-    S("variable:VarsManager.mask_params", ["mask_vars"], snapshot_exprs=[("self.mask_vars", "mask_vars")], restore_assign=[("self.mask_vars", "mask_vars")]),
-    S("amp.amp:AbsPDF.temp_params", ["params"], snapshot_calls=[("self.get_params()", "params")], restore_calls=[("self.set_params", "params")]),  # the snapshot must be ALL parameters: get_params() with no argument
-    S("amp.amp:AbsPDF.mask_params", ["mask_vars"], cm_calls=[("self.vm.mask_params", ["mask_vars"])]),
+    S("variable:VarsManager.temp_params", ["params"],
+      snapshot_patterns=[("getter_over_keys", "params", {"container": "params", "getter": "*.get", "kw": {"val_in_fit": "False"}})],
+      restore_calls=[("*.set_all", "params")]),
+    S("variable:VarsManager.mask_params", ["mask_vars"], snapshot_exprs=[("*.mask_vars", "mask_vars")], restore_assign=[("*.mask_vars", "mask_vars")]),
+    S("amp.amp:AbsPDF.temp_params", ["params"], snapshot_calls=[("self.get_params()", "params")], restore_calls=[("*.set_params", "params")]),  # the snapshot must be ALL parameters: get_params() with no argument
+    S("amp.amp:AbsPDF.mask_params", ["mask_vars"], cm_calls=[("*.mask_params", ["mask_vars"])]),
     chains("amp.core:DecayGroup.temp_used_res"),
     chains("amp.amp:BaseAmplitudeModel.temp_used_res"),
     S("amp.amp:BaseAmplitudeModel.temp_total_gls_one", ["mask_factor"],
-      snapshot_exprs=[("[getattr(i, 'mask_factor', False) for i in mask_part]", "mask_factor")], mutate_assign=[("i.mask_factor", "mask_factor")],
-      restore_stmts=[("for i, j in zip(mask_part, old_mask):\n    i.mask_factor = j", "mask_factor", "old_mask")]),
+      snapshot_patterns=[("attr_list", "mask_factor", {"attr": "mask_factor"})], mutate_assign=[("*.mask_factor", "mask_factor")]),
     S("config:temp_config", ["config"], snapshot_calls=[("get_config(name)", "config")], restore_calls=[("set_config", "config")]),
-    S("amp.core:variable_scope", ["config"], cm_calls=[("temp_config", ["config"])]),
-    S("amp.core:DecayChain.factor_iteration", ["mask_vars"], cm_calls=[("self.total.vm.mask_params", ["mask_vars"])]),
+    S("amp.core:variable_scope", ["config"], cm_calls=[("*.temp_config", ["config"])]),
+    S("amp.core:DecayChain.factor_iteration", ["mask_vars"], cm_calls=[("*.mask_params", ["mask_vars"])]),
     # ---- derived computations
     chains("amp.core:DecayGroup.factor_iteration"),
     chains("amp.core:DecayGroup.partial_weight"),
@@ -53,7 +49,7 @@ SPECS = [
     chains("experimental.build_amp:build_angle_amp_matrix"),
     chains("experimental.opt_int:build_int_matrix"),
     S("amp.preprocess:CachedShapePreProcessor.build_cached", ["chains_idx", "mask_factor"], snapshot_exprs=CHAINS_SNAP, restore_calls=CHAINS_RESTORE_CALLS, mutate_calls=CHAINS_MUT,
-      cm_calls=CHAINS_CM + [("self.amp.temp_total_gls_one", ["mask_factor"])]),
+      cm_calls=CHAINS_CM + [("*.temp_total_gls_one", ["mask_factor"])]),
 ]
 
 
